@@ -8,7 +8,7 @@ PROP = {'rule': 'rapid state machine, one unit per combination of EnableRuntimeQ
          'namespace annotation, dangling label -> default quota, default/system quota; preemptible or not; 1-2 containers, declared and '
          'undeclared dimensions), schedule (PreFilter, on Success Reserve, optionally an informer event between the two), finish binding (bind = '
          'pod update with nodeName, or Unreserve), pod delete (optionally followed by the late Unreserve), pods labelled with a quota that does not exist yet (parked in the default quota, admitted / reserved / bound there), late quota create for such names (leaf below the root or below an existing parent, webhook-valid), migrate (the plugin\'s real periodic cycle migrateDefaultQuotaGroupsPod; afterwards the pod counts against its own quota in the model; parked pods are also scheduled, rolled back, bound and deleted inside the window between quota creation and migration), quota label changes where the webhook allows them (toggle allow-lent-resource on any quota; toggle is-parent: a parent without children -> leaf, a leaf named by no pod -> parent; both make the manager rebuild the whole tree; re-parent a quota with its subtree below the root or below another is-parent quota with the same dimensions, outside its own subtree, whose min has room for it: the ancestor chains of the model follow), quota update (raise max / set min inside '
-         'the webhook window / lower max), capacity change (node add / delete / resize / squeeze). The three +parent-pods units run the base machine with pods that may name a parent quota directly (alpha gate SupportParentQuotaSubmitPod, webhook side only), half of the pods non-preemptible and generous mins. The four +pod-updates units run the same machine plus: ordinary pod update events that keep labels, request and node (status / resourceVersion only) for pods in any state, and the late bind error (the binding is already visible, then the bind call of the scheduler reports an error: Unreserve, optionally ForgetPod -> handlePodDelete, while the pod keeps running). non-trivial = some attempt was rejected on a '
+         'the webhook window / lower max), capacity change (node add / delete / resize / squeeze). The +parked-late-bind-error unit adds the late bind error for pods bound while parked in the default quota (the update that moves such a running pod into its meanwhile created quota has to charge it there). The unreserve||delete unit is one harness-owned interleaving: a quota hook plugin starts the delete event of a pod inside its roll-back, with a bounded wait, joined afterwards; at quiescence the next admission must see exactly the remaining pods. The three +parent-pods units run the base machine with pods that may name a parent quota directly (alpha gate SupportParentQuotaSubmitPod, webhook side only), half of the pods non-preemptible and generous mins. The four +pod-updates units run the same machine plus: ordinary pod update events that keep labels, request and node (status / resourceVersion only) for pods in any state, and the late bind error (the binding is already visible, then the bind call of the scheduler reports an error: Unreserve, optionally ForgetPod -> handlePodDelete, while the pod keeps running). non-trivial = some attempt was rejected on a '
          'quota, afterwards an assigned pod on that quota\'s path was released (delete or unreserve), and afterwards an attempt on the same quota '
          'was admitted. distinct = FNV-64 of setup + full history.',
  'assumptions': ['quota objects are webhook-valid and min lists the same dimensions as max (a dimension missing from min is not checked by the '
@@ -48,20 +48,22 @@ PROP = {'rule': 'rapid state machine, one unit per combination of EnableRuntimeQ
                  'Go map iteration inside koordinator (runtime redistribution) is not controlled by the seed'],
  'units': [{'name': 'plugin',
             'pkg': 'pkg/scheduler/plugins/elasticquota',
-            'files': ['C03/c03_admission_test.go'],
+            'files': ['C03/c03_admission_test.go', 'C03/c03_race_test.go'],
             'tests': [{'run': 'TestVerifC03RuntimeOnParentOff', 'quick': 2000, 'thorough': 2000, 'steps': 70},
                       {'run': 'TestVerifC03RuntimeOnParentOn', 'quick': 2000, 'thorough': 2000, 'steps': 70},
                       {'run': 'TestVerifC03RuntimeOffParentOff', 'quick': 2000, 'thorough': 2000, 'steps': 70},
                       {'run': 'TestVerifC03RuntimeOffParentOn', 'quick': 2000, 'thorough': 2000, 'steps': 70},
-                      {'run': 'TestVerifC03PodUpdatesRuntimeOnParentOn', 'quick': 1500, 'thorough': 1000, 'steps': 70},
-                      {'run': 'TestVerifC03PodUpdatesRuntimeOffParentOff', 'quick': 1500, 'thorough': 1000, 'steps': 70},
-                      {'run': 'TestVerifC03PodUpdatesRuntimeOnParentOff', 'quick': 1500, 'thorough': 1000, 'steps': 70},
-                      {'run': 'TestVerifC03PodUpdatesRuntimeOffParentOn', 'quick': 1500, 'thorough': 1000, 'steps': 70},
+                      {'run': 'TestVerifC03PodUpdatesRuntimeOnParentOn', 'quick': 1000, 'thorough': 1000, 'steps': 70},
+                      {'run': 'TestVerifC03PodUpdatesRuntimeOffParentOff', 'quick': 1000, 'thorough': 1000, 'steps': 70},
+                      {'run': 'TestVerifC03PodUpdatesRuntimeOnParentOff', 'quick': 1000, 'thorough': 1000, 'steps': 70},
+                      {'run': 'TestVerifC03PodUpdatesRuntimeOffParentOn', 'quick': 1000, 'thorough': 1000, 'steps': 70},
                       {'run': 'TestVerifC03ParkedPodUpdatesRuntimeOnParentOn', 'quick': 1500, 'thorough': 1000, 'steps': 70},
                       {'run': 'TestVerifC03ParkedPodUpdatesRuntimeOffParentOff', 'quick': 1500, 'thorough': 1000, 'steps': 70},
                       {'run': 'TestVerifC03ParentPodsRuntimeOffParentOn', 'quick': 1500, 'thorough': 1000, 'steps': 70},
                       {'run': 'TestVerifC03ParentPodsRuntimeOnParentOff', 'quick': 1000, 'thorough': 1000, 'steps': 70},
-                      {'run': 'TestVerifC03ParentPodsRuntimeOffParentOff', 'quick': 1500, 'thorough': 1000, 'steps': 70}]}],
+                      {'run': 'TestVerifC03ParentPodsRuntimeOffParentOff', 'quick': 1500, 'thorough': 1000, 'steps': 70},
+                      {'run': 'TestVerifC03ParkedLateBindErrorRuntimeOffParentOff', 'quick': 1500, 'thorough': 1000, 'steps': 70},
+                      {'run': 'TestVerifC03UnreserveDeleteInterleaved', 'quick': 300, 'thorough': 300}]}],
  'manifest': {'technique': 'property-based testing (rapid): model-based state machine over the closed loop pod add -> PreFilter -> Reserve -> '
                            'bind/Unreserve -> delete with quota and capacity changes, per-attempt decision oracle + history invariant',
               'text': 'Generated-history search over the real ElasticQuota plugin for each of the four runtime-quota x check-parent settings. A '
